@@ -479,3 +479,188 @@ Lemma ex_session_computes :
     [firstn 1 w; []; firstn 5 (skipn 1 w); skipn 6 w] = (ex_payloads, TNeedMore)
   /\ w <> frames id_deflate 2 6 ex_payloads.
 Proof. vm_compute. split; [reflexivity|discriminate]. Qed.
+
+(* ---------- histories: configuration changes between buffered writes ---------- *)
+
+Section History.
+  Variable deflate : Z -> bytes -> bytes.
+  Variable inflate : bytes -> zres.
+  Variable lazy_close_ok : bytes -> N -> bool.
+  Variable E : bytes -> bytes.
+  Hypothesis inflate_deflate : forall l p, inflate (deflate l p) = mkz p true.
+
+  (* the undelivered raw bytes in front of the reader *)
+  Definition raw (r : reader) : bytes := concat (r_chunks r).
+
+  (* r' is r after consuming some k raw bytes: the cipher register has moved over exactly those bytes *)
+  Definition steps (r r' : reader) : Prop :=
+    exists k, (k <= length (raw r))%nat /\ raw r' = skipn k (raw r) /\
+              r_reg r' = option_map (fun g => cfb8_adv g (firstn k (raw r))) (r_reg r).
+
+  Lemma firstn_plus {A} : forall k1 k2 (x : list A), firstn (k1 + k2) x = firstn k1 x ++ firstn k2 (skipn k1 x).
+  Proof.
+    induction k1 as [|k1 IH]; intros k2 x; [reflexivity|].
+    destruct x as [|a x]; cbn [plus firstn skipn app]; [destruct k2; reflexivity|]. rewrite IH. reflexivity.
+  Qed.
+
+  Lemma skipn_plus {A} : forall k1 k2 (x : list A), skipn k2 (skipn k1 x) = skipn (k1 + k2) x.
+  Proof.
+    induction k1 as [|k1 IH]; intros k2 x; [reflexivity|].
+    destruct x as [|a x]; cbn [plus skipn]; [destruct k2; reflexivity|]. apply IH.
+  Qed.
+
+  Lemma steps_refl r : steps r r.
+  Proof. exists O. cbn [skipn firstn cfb8_adv]. split; [lia|split; [reflexivity|]]. destruct (r_reg r); reflexivity. Qed.
+
+  Lemma steps_trans r1 r2 r3 : steps r1 r2 -> steps r2 r3 -> steps r1 r3.
+  Proof.
+    intros (k1 & Hl1 & Hr1 & Hg1) (k2 & Hl2 & Hr2 & Hg2). exists (k1 + k2)%nat.
+    rewrite Hr1 in Hl2, Hr2, Hg2. rewrite skipn_length in Hl2.
+    split; [lia|split].
+    - rewrite Hr2, skipn_plus. reflexivity.
+    - rewrite Hg2, Hg1. destruct (r_reg r1) as [g|]; cbn [option_map]; [|reflexivity].
+      rewrite firstn_plus, cfb8_adv_app. reflexivity.
+  Qed.
+
+  Lemma rd_read_steps r n b r' : rd_read E r n = Some (b, r') -> steps r r'.
+  Proof.
+    unfold rd_read. pose proof (read_full_spec (r_chunks r) n) as H.
+    destruct (read_full (r_chunks r) n) as [[b0 cs']|]; [|discriminate].
+    destruct H as (Hb & Hr & Hl). intros Heq. exists n. unfold raw.
+    destruct (r_reg r) as [g|]; inversion Heq; subst; cbn [r_chunks r_reg option_map];
+      (split; [exact Hl|split; [exact Hr|reflexivity]]).
+  Qed.
+
+  Lemma rd_varint_fuel_steps : forall f i acc r v r',
+    rd_varint_fuel E f i acc r = RVal v r' -> steps r r'.
+  Proof.
+    induction f as [|f IH]; intros i acc r v r' H; cbn [rd_varint_fuel] in H; [discriminate|].
+    destruct (rd_read E r 1) as [[b r1]|] eqn:Erd; [|discriminate].
+    apply rd_read_steps in Erd.
+    destruct b as [|x [|? ?]]; try discriminate.
+    destruct (5 <=? i); [discriminate|].
+    destruct (N.land x 128 =? 0).
+    - inversion H; subst. exact Erd.
+    - eapply steps_trans; [exact Erd|]. eapply IH. exact H.
+  Qed.
+
+  Lemma rd_frame_steps f1 f2 c r p r' :
+    rd_frame inflate lazy_close_ok E f1 f2 c r = ROk p r' -> steps r r'.
+  Proof.
+    unfold rd_frame, rd_varint. destruct (rd_varint_fuel E 6 0 0 r) as [l r1| |] eqn:Ev; try discriminate.
+    apply rd_varint_fuel_steps in Ev.
+    destruct (l =? 0)%Z; [intros H; inversion H; subst; exact Ev|].
+    destruct ((l <? 0)%Z || (MAXFRAME <? l)%Z); [discriminate|].
+    destruct (rd_read E r1 (Z.to_nat l)) as [[body r2]|] eqn:Erd; [|discriminate].
+    apply rd_read_steps in Erd.
+    destruct (snd (payload_of inflate lazy_close_ok f1 f2 c body)); [|discriminate].
+    intros H. inversion H; subst. eapply steps_trans; eassumption.
+  Qed.
+
+  Lemma rd_packet_fuel_steps f1 f2 : forall fuel k c r p r',
+    rd_packet_fuel inflate lazy_close_ok E f1 f2 fuel k c r = ROk p r' -> steps r r'.
+  Proof.
+    induction fuel as [|fuel IH]; intros k c r p r' H; cbn [rd_packet_fuel] in H; [discriminate|].
+    destruct (rd_frame inflate lazy_close_ok E f1 f2 c r) as [q r1|e|] eqn:Ef; try discriminate.
+    apply rd_frame_steps in Ef.
+    destruct q as [|x q].
+    - destruct (10 <? k); [discriminate|]. eapply steps_trans; [exact Ef|]. eapply IH. exact H.
+    - destruct (read_varint (x :: q)); try discriminate. inversion H; subst. exact Ef.
+  Qed.
+
+  Lemma plain_length r : length (plain E r) = length (raw r).
+  Proof. unfold plain, raw. destruct (r_reg r); [apply cfb8_dec_length|reflexivity]. Qed.
+
+  (* a step that leaves exactly |W| raw bytes of c ++ W has consumed exactly c *)
+  Lemma steps_exact r r' c W :
+    steps r r' -> raw r = c ++ W -> length (raw r') = length W ->
+    raw r' = W /\ r_reg r' = option_map (fun g => cfb8_adv g c) (r_reg r).
+  Proof.
+    intros (k & Hl & Hr & Hg) Hraw Hlen. rewrite Hraw in *.
+    assert (Hk : k = length c).
+    { rewrite Hr, skipn_length, app_length in Hlen. rewrite app_length in Hl. lia. }
+    subst k. rewrite skipn_app, skipn_all, Nat.sub_diag in Hr. cbn in Hr.
+    rewrite firstn_app, firstn_all, Nat.sub_diag in Hg. cbn [firstn] in Hg. rewrite app_nil_r in Hg.
+    split; assumption.
+  Qed.
+
+  Notation impl := (impl_decode_frame inflate lazy_close_ok).
+
+  (* one write, then whatever follows: ReadPacket returns the payload and leaves the reader in front of W with
+     the cipher register advanced over the frame's ciphertext *)
+  Lemma read_one t lvl d p r W :
+    starts_with_id p = true -> fitsb deflate t lvl d p = true ->
+    raw r = match r_reg r with
+            | None => frame deflate t lvl p
+            | Some g => cfb8_enc E g (frame deflate t lvl p)
+            end ++ W ->
+    exists r', rd_packet inflate lazy_close_ok E true true (mkcfg t d) r = ROk p r' /\ raw r' = W /\
+               r_reg r' = option_map (fun g => cfb8_adv g (cfb8_enc E g (frame deflate t lvl p))) (r_reg r).
+  Proof.
+    intros Hid Hfit Hraw.
+    set (f := frame deflate t lvl p) in *.
+    set (X := match r_reg r with None => W | Some g => cfb8_dec E (cfb8_adv g (cfb8_enc E g f)) W end).
+    assert (Hplain : plain E r = f ++ X).
+    { unfold plain, X. fold (raw r). rewrite Hraw. destruct (r_reg r) as [g|]; [|reflexivity].
+      rewrite cfb8_dec_app, cfb8_inverse_reg. reflexivity. }
+    assert (HX : length X = length W).
+    { unfold X. destruct (r_reg r); [apply cfb8_dec_length|reflexivity]. }
+    pose proof (rd_packet_fuel_flat inflate lazy_close_ok E true true 12 0 (mkcfg t d) r) as Hrel.
+    rewrite Hplain in Hrel.
+    pose proof (read_packet_roundtrip deflate inflate lazy_close_ok inflate_deflate t lvl d p X Hid Hfit) as Hrt.
+    change (snd (read_packet_with (decode_frame_with inflate lazy_close_ok read_varint true true) 12 0 (mkcfg t d) (f ++ X)))
+      with (snd (read_packet impl (mkcfg t d) (frame deflate t lvl p ++ X))) in Hrel.
+    rewrite Hrt in Hrel.
+    unfold rd_packet.
+    destruct (rd_packet_fuel inflate lazy_close_ok E true true 12 0 (mkcfg t d) r) as [p' r'|e|] eqn:Ep;
+      cbn [frel] in Hrel; try contradiction.
+    destruct Hrel as (-> & Hpl). exists r'. split; [reflexivity|].
+    apply rd_packet_fuel_steps in Ep.
+    assert (Hlen : length (raw r') = length W) by (rewrite <- plain_length, Hpl; exact HX).
+    destruct (r_reg r) as [g|] eqn:Eg.
+    - destruct (steps_exact r r' _ W Ep Hraw Hlen) as (H1 & H2). rewrite Eg in H2. split; assumption.
+    - destruct (steps_exact r r' _ W Ep Hraw Hlen) as (H1 & H2). rewrite Eg in H2. split; assumption.
+  Qed.
+
+  Theorem history_roundtrip lvl d : forall ops t r,
+    ops_ok deflate lvl t d ops = true ->
+    raw r = wire_ops deflate E lvl t (r_reg r) ops ->
+    read_ops inflate lazy_close_ok E d t r ops = (written ops, TNeedMore).
+  Proof.
+    induction ops as [|o ops IH]; intros t r Hok Hraw.
+    - cbn [read_ops written]. cbn [wire_ops] in Hraw. fold (raw r). rewrite Hraw.
+      rewrite rd_stream_fuel_flat.
+      assert (Hp : plain E r = []).
+      { pose proof (plain_length r) as Hl. rewrite Hraw in Hl. destruct (plain E r); [reflexivity|discriminate]. }
+      rewrite Hp. reflexivity.
+    - destruct o as [p|t'|s|]; cbn [read_ops written wire_ops ops_ok] in *.
+      + apply andb_true_iff in Hok. destruct Hok as (Hok1 & Hok). apply andb_true_iff in Hok1. destruct Hok1 as (Hid & Hfit).
+        assert (Hraw' : raw r = match r_reg r with
+                                | None => frame deflate t lvl p
+                                | Some g => cfb8_enc E g (frame deflate t lvl p)
+                                end ++ wire_ops deflate E lvl t
+                                  (option_map (fun g => cfb8_adv g (cfb8_enc E g (frame deflate t lvl p))) (r_reg r)) ops).
+        { rewrite Hraw. destruct (r_reg r); reflexivity. }
+        destruct (read_one t lvl d p r _ Hid Hfit Hraw') as (r' & Hrd & Hr' & Hg').
+        rewrite Hrd. rewrite (IH t r' Hok); [reflexivity|]. rewrite Hr', Hg'. reflexivity.
+      + apply IH; assumption.
+      + apply IH; [assumption|]. exact Hraw.
+      + apply IH; assumption.
+  Qed.
+End History.
+
+(* non-vacuity for histories: two writes before the threshold is set, one more before encryption is enabled,
+   a threshold change after it; none of the first three writes is flushed before the changes *)
+Definition ex_history : list wop :=
+  [WWrite [1; 2; 3]; WWrite [5]; WThr 2; WWrite [127; 0; 0; 0; 0]; WEnc ex_secret; WWrite [9; 9; 9]; WFlush;
+   WThr (-1); WWrite [4; 4]; WFlush].
+
+Lemma ex_history_computes :
+  ops_ok id_deflate 6 (-1) ClientBound ex_history = true /\
+  (let w := wire_ops id_deflate toy_E 6 (-1) None ex_history in
+   read_ops id_inflate no_lazy toy_E ClientBound (-1) (mkrd [firstn 3 w; []; firstn 9 (skipn 3 w); skipn 12 w] None) ex_history
+     = (written ex_history, TNeedMore)
+   /\ written ex_history = [[1; 2; 3]; [5]; [127; 0; 0; 0; 0]; [9; 9; 9]; [4; 4]]
+   /\ firstn 6 w = [3; 1; 2; 3; 1; 5]
+   /\ w <> wire_ops id_deflate toy_E 6 (-1) None (filter (fun o => match o with WEnc _ => false | _ => true end) ex_history)).
+Proof. vm_compute. repeat split; try reflexivity. discriminate. Qed.
